@@ -1,4 +1,5 @@
 import DdsModel.EncTotal
+import DdsModel.EncTotal64
 import DdsModel.Drv.C02
 namespace Dds.Drv.C15
 open Dds Dds.Drv Dds.EncTotal
@@ -65,7 +66,7 @@ def encodePixel (fmt : String) (r g b a : ExtReal) : Option Nat :=
 /-- `E <path> <format> <w> <h> <color> <pitchExtra> <content> <cseed> <quality> <dither> <metric> <parallel> <k|->`
 — colour, pitch, content, options do not influence the predicted result: that is the property.
 `Q <format> <r> <g> <b> <a>`; `S <rbits> <gbits> <bbits>`;
-`U <format> <rbits> <gbits> <bbits> <abits>` -/
+`U <format> <rbits> <gbits> <bbits> <abits>`; `W <format> <rbits> <gbits> <bbits> <abits>` -/
 def runC15 (line : String) : String :=
   match toks line with
   | ["E", path, fmt, w, h, color, pitch, content, cseed, q, d, m, par, k] =>
@@ -123,6 +124,16 @@ def runC15 (line : String) : String :=
       if !["B5G6R5_UNORM", "B5G5R5A1_UNORM", "B4G4R4A4_UNORM", "A4B4G4R4_UNORM", "R10G10B10A2_UNORM",
            "R8G8B8A8_SNORM"].contains fmt then "bad-case" else
       match QuantBits.encode fmt r g b a with
+      | some v => s!"px {v}"
+      | none => "panic"
+    | _, _, _, _ => "bad-case"
+  | ["W", fmt, r, g, b, a] =>
+    -- bit patterns of an RGBA f32 pixel through `s16::from_uf32` (software binary64)
+    match nat? r, nat? g, nat? b, nat? a with
+    | some r, some g, some b, some a =>
+      if r ≥ 2 ^ 32 ∨ g ≥ 2 ^ 32 ∨ b ≥ 2 ^ 32 ∨ a ≥ 2 ^ 32 then "bad-case" else
+      if !["R16_SNORM", "R16G16_SNORM", "R16G16B16A16_SNORM"].contains fmt then "bad-case" else
+      match QuantBits.encode16 fmt r g b a with
       | some v => s!"px {v}"
       | none => "panic"
     | _, _, _, _ => "bad-case"
